@@ -68,12 +68,14 @@ func (s *sim) examine(preDur map[uint64][]byte, preDir map[string]uint64, preFil
 		for _, n := range names {
 			files = append(files, fileImg{n, cur[n]})
 		}
-		killStart := s.snaps[0]
-		if len(s.snaps) > 1 && t.Bool(500) {
-			// a marker whose SaveSnapshot returned is flushed
-			killStart = s.snaps[t.Choose(len(s.snaps))]
+		// every marker whose SaveSnapshot returned is flushed: each is a legitimate
+		// place to open from (production opens from its newest snapshot)
+		for _, killStart := range s.snaps {
+			if len(c.Viol) > 0 {
+				break
+			}
+			s.checkImage("kill", files, killStart, s.killMin, false, -1)
 		}
-		s.checkImage("kill", files, killStart, s.killMin, false, -1)
 	}
 	if len(c.Viol) > 0 {
 		return
@@ -165,6 +167,41 @@ func (s *sim) examine(preDur map[uint64][]byte, preDir map[string]uint64, preFil
 		phase := 0
 		if stride > 1 {
 			phase = t.Choose(stride)
+		}
+		if lo%512 == 0 && hi-lo > 512 && len(c.Viol) == 0 && string(s.durContent[curIno[v.name]]) == string(v.dur) {
+			// the first unsynced sector never reached the disk, the later ones did
+			// (sector-granular reordering): recovery must wipe them, or they come
+			// back behind whatever is saved next. Only legitimate when no fsync of
+			// this file completed during the operation (all of [lo,hi) was pending
+			// at the same time).
+			var files []fileImg
+			for j := range vs {
+				w := vs[j]
+				var data []byte
+				switch {
+				case j == fi:
+					data = append([]byte(nil), w.cur...)
+					for k := lo; k < lo+512 && k < len(data); k++ {
+						data[k] = durAt(k)
+					}
+				case isBefore(changed, ci, j):
+					data = w.cur
+				default:
+					if !w.durKnown && w.dur == nil {
+						continue
+					}
+					if w.dur != nil {
+						data = w.dur
+					} else {
+						data = w.cur
+					}
+				}
+				files = append(files, fileImg{w.name, data})
+			}
+			c.Fault("first_unsynced_sector_lost")
+			s.forcePost = true
+			s.checkImage("power", files, start, prePower, false, lo)
+			s.forcePost = false
 		}
 		for o := lo; o <= hi && len(c.Viol) == 0; o++ {
 			if stride > 1 && (o-lo)%stride != phase && o-lo > 300 && hi-o > 300 {
@@ -369,14 +406,41 @@ func (s *sim) checkImage(kind string, files []fileImg, start walpb.Snapshot, min
 		return
 	}
 	// the reopened log must accept further saves and reopen cleanly again
-	if s.t.Bool(60) && r.w != nil {
+	if (s.forcePost || s.t.Bool(60)) && r.w != nil {
 		ni := lastIdx(r.ents)
 		if ni < start.Index {
 			ni = start.Index
 		}
-		ne := pb.Entry{Term: r.hs.Term + 1, Index: ni + 1, Data: []byte("after-recovery")}
+		// what is saved after the recovery: a small record, a large one (reaching
+		// into whatever lies behind the recovered end of the log), or exactly the
+		// records that were lost (a node that re-receives the same entries)
+		var nents []pb.Entry
 		nhs := pb.HardState{Term: r.hs.Term + 1, Vote: 1, Commit: r.hs.Commit}
-		if err := r.w.Save(nhs, []pb.Entry{ne}); err != nil {
+		mode := s.t.Choose(3)
+		if mode == 2 && L < len(s.recs) {
+			nhs = r.hs
+			for i := L; i < len(s.recs) && s.recs[i].op == s.recs[L].op; i++ {
+				if s.recs[i].kind == recEntry {
+					nents = append(nents, s.recs[i].ent)
+				} else if s.recs[i].kind == recState {
+					nhs = s.recs[i].hs
+				}
+			}
+			if len(nents) > 0 && nents[0].Index != ni+1 {
+				nents = nil
+			}
+			c.Probe("resave_lost_records")
+		}
+		if len(nents) == 0 {
+			nhs = pb.HardState{Term: r.hs.Term + 1, Vote: 1, Commit: r.hs.Commit}
+			data := []byte("after-recovery")
+			if mode == 1 {
+				data = dataFor(ni+1, r.hs.Term+1, 777, 600+s.t.Choose(1500))
+			}
+			nents = []pb.Entry{{Term: r.hs.Term + 1, Index: ni + 1, Data: data}}
+		}
+		ne := nents
+		if err := r.w.Save(nhs, append([]pb.Entry(nil), ne...)); err != nil {
 			c.Violate("C05", "save-after-recovery", "", "%s: Save after recovery: %v", desc(), err)
 			return
 		}
@@ -390,7 +454,7 @@ func (s *sim) checkImage(kind string, files []fileImg, start walpb.Snapshot, min
 			c.Violate("C05", "reopen-after-recovery", "", "%s: second reopen after one more Save: %s %v", desc(), r2.tag, r2.err)
 			return
 		}
-		want := append(append([]pb.Entry(nil), r.ents...), ne)
+		want := append(append([]pb.Entry(nil), r.ents...), ne...)
 		e := effect{hs: nhs, ents: want}
 		if !sameEffect(r2.hs, r2.ents, &e) {
 			c.Violate("C05", "reopen-after-recovery", "", "%s: second reopen returned hs=%v %d entries, want hs=%v %d entries", desc(), r2.hs, len(r2.ents), nhs, len(want))
